@@ -98,16 +98,23 @@ class ProgramOptionsSave(Contract):
         if alpha_if is None:
             raise ExtractionError('ProgramOptions::save: alpha0 special case not found')
         cond = alpha_if['inner'][0]
+        while cond.get('kind') in ('ExprWithCleanups', 'ImplicitCastExpr', 'ParenExpr', 'MaterializeTemporaryExpr'):
+            cond = cond['inner'][0]
         rhs = None
         if cond.get('kind') == 'BinaryOperator' and cond.get('opcode') == '&&':
             rhs = cond['inner'][1]
         if rhs is None:
             raise ExtractionError('ProgramOptions::save: alpha0 condition has an unexpected shape')
         ex.thisname = 'this'
-        c = ex.tobool(ex.ev(rhs, st))
+        try:
+            c = ex.tobool(ex.ev(rhs, st))
+        except ExtractionError:
+            # the condition consults something other than scalar members (e.g. the variables map): nothing is known
+            # about it here, so it cannot establish that a synchrotron frequency is in use
+            c = State.fresh('alpha0_condition', z3.BoolSort())
         fs = st.scal.get('this.f_s')
         if fs is None:
-            raise ExtractionError('ProgramOptions::save: alpha0 condition does not read f_s')
+            fs = ex.new_scalar(st, 'this.f_s', parse_type_str('float'))
         wrote_zero = any('alpha0=0' in (x.get('value') or '') for x in _walk(alpha_if['inner'][1]) if x.get('kind') == 'StringLiteral')
         ex.oblig(st, 'alpha0.zero_only_when_overridden', z3.Implies(z3.And(c, z3.BoolVal(wrote_zero)), fs.t != 0), 'postcondition', {'C13'},
                  'alpha0 may be replaced by 0 only when a synchrotron frequency is given')
